@@ -248,6 +248,39 @@ theorem empty_signature_is_false (env : Env) (sub : List POp) (s : St) (pk : Byt
   · intro h; simp [opCheckSig, hs, h]
   · intro e h; simp [opCheckSig, hs, h]
 
+/-- **A malformed public key is a hard failure of OP_CHECKSIG whatever the signature** (under the flags that police key
+    encodings): if the signature is empty, or its hash type and encoding pass their checks, the result is the key's
+    encoding error — no boolean is pushed. -/
+theorem malformed_key_fails_checksig (env : Env) (sub : List POp) (s : St) (pk fullSig : Bytes) (rest : List Bytes) (e : String)
+    (hs : s.ds = pk :: fullSig :: rest) (hk : checkPubKeyEncoding env pk = some e)
+    (hsig : fullSig.length < 1 ∨
+      (checkHashTypeEncoding env (fullSig.getLast?.getD 0).toNat = none ∧ checkSignatureEncoding env fullSig.dropLast = none)) :
+    opCheckSig env sub s = .err e := by
+  rcases hsig with h | ⟨h1, h2⟩
+  · simp [opCheckSig, hs, h, hk]
+  · by_cases h : fullSig.length < 1
+    · simp [opCheckSig, hs, h, hk]
+    · simp [opCheckSig, hs, h, hk, h1, h2]
+
+/-- … and of OP_CHECKMULTISIG for the pair it evaluates next: with at least as many keys left as signatures, a malformed
+    next key ends the loop with its encoding error when the next signature is empty or passes its own checks. -/
+theorem malformed_key_fails_multisig_pair (env : Env) (c : Ctx) (code : Except PErr Bytes) (fuel : Nat)
+    (sg key : Bytes) (sigsRest keysRest bad : List Bytes) (e : String)
+    (hlen : (sg :: sigsRest).length ≤ (key :: keysRest).length) (hk : checkPubKeyEncoding env key = some e)
+    (hsig : sg.length = 0 ∨
+      (checkHashTypeEncoding env (sg.getLast?.getD 0).toNat = none ∧ checkSignatureEncoding env sg.dropLast = none)) :
+    multisigLoop env c code (fuel + 1) (sg :: sigsRest) (key :: keysRest) bad = .inl e := by
+  have hgt : ¬ ((sg :: sigsRest).length > (key :: keysRest).length) := by omega
+  have hle : sigsRest.length ≤ keysRest.length := by simpa using hlen
+  unfold multisigLoop
+  rcases hsig with h | ⟨h1, h2⟩
+  · simp [hgt, h, hk, hle]
+  · by_cases h : sg.length = 0
+    · simp [hgt, h, hk, hle]
+    · have hb : (sg.length == 0) = false := by simp [h]
+      simp only [hgt, ↓reduceIte, hb, Bool.false_eq_true]
+      by_cases hfl : bad.contains sg <;> simp [hfl, h1, h2, hk]
+
 /-- The hash-type / signature / public-key encoding checks only ever object under the flags that ask for them. -/
 theorem encoding_checks_need_flags (env : Env)
     (h1 : hasFlag env.flags fStrictEnc = false) (h2 : hasFlag env.flags fDERSig = false)
